@@ -117,6 +117,7 @@ class TLCResult:
         self.ok = False
         self.violation = None      # name of violated invariant / property / "deadlock"
         self.printed = []          # decoded PrintT JSON strings
+        self.nprinted = 0
         self.wall = 0.0
         self.trace_json = None
 
@@ -134,7 +135,7 @@ _RE_SIM = re.compile(r"The number of states generated: (\d+)")
 
 
 def tlc(engine, module, cfg, workers=None, timeout=600, simulate=None, depth=None, extra=None,
-        env_extra=None, files=None, want_printed=False, dump_trace=False, deadlock_default=None, javaopts=None):
+        env_extra=None, files=None, want_printed=False, printed_to=None, dump_trace=False, deadlock_default=None, javaopts=None):
     """Run TLC on specs/<engine>/<module>.tla with <cfg> in a scratch copy of the spec dir.
     files: {name: text} extra files (e.g. recorded traces) written into the scratch dir."""
     src = os.path.join(SPECS, engine)
@@ -171,21 +172,37 @@ def tlc(engine, module, cfg, workers=None, timeout=600, simulate=None, depth=Non
         if env_extra:
             env.update(env_extra)
         t0 = time.time()
-        p = subprocess.run(cmd, cwd=work, env=env, stdout=subprocess.PIPE, stderr=subprocess.STDOUT, text=True)
+        # stream the output: PrintT'ed JSON lines go to a list or straight to a file, the rest is kept (bounded)
+        pf = open(printed_to, "w") if printed_to else None
+        head, tail, nprinted = [], [], 0
+        p = subprocess.Popen(cmd, cwd=work, env=env, stdout=subprocess.PIPE, stderr=subprocess.STDOUT, text=True, bufsize=1 << 20)
+        for line in p.stdout:
+            if (want_printed or pf) and (line.startswith('"{') or line.startswith('"[')):
+                try:
+                    dec = json.loads(line)
+                except ValueError:
+                    dec = None
+                if dec is not None:
+                    nprinted += 1
+                    if pf:
+                        pf.write(dec + "\n")
+                    else:
+                        res.printed.append(json.loads(dec))
+                    continue
+            line = line.rstrip("\n")
+            if len(head) < 400:
+                head.append(line)
+            else:
+                tail.append(line)
+                if len(tail) > 6000:
+                    del tail[:2000]
+        p.wait()
+        if pf:
+            pf.close()
+        res.nprinted = nprinted
         res.wall = time.time() - t0
         res.rc = p.returncode
-        out = p.stdout
-        if want_printed:
-            keep = []
-            for line in out.splitlines():
-                if line.startswith('"{') or line.startswith('"['):
-                    try:
-                        res.printed.append(json.loads(json.loads(line)))
-                    except ValueError:
-                        keep.append(line)
-                else:
-                    keep.append(line)
-            out = "\n".join(keep)
+        out = "\n".join(head + tail)
         res.out = out
         m = None
         for m in _RE_STATES.finditer(out):
